@@ -16,7 +16,6 @@ UNIT.pinned = [(PB, "ProgressBar", n) for n in
                 "suspend", "update", "index", "state",
                 "enable_steady_tick", "disable_steady_tick", "stop_and_replace_ticker"]] + [
     ("src/state.rs", "BarState", "new"), ("src/state.rs", "BarState", "update"), ("src/state.rs", "ProgressState", "new"),
-    ("src/state.rs", "AtomicPosition", "new"),
     ("src/draw_target.rs", "ProgressDrawTarget", "term"),
     ("src/draw_target.rs", "ProgressDrawTarget", "stdout"), ("src/draw_target.rs", "ProgressDrawTarget", "stderr"),
     ("src/draw_target.rs", "ProgressDrawTarget", "stdout_with_hz"), ("src/draw_target.rs", "ProgressDrawTarget", "stderr_with_hz"),
